@@ -34,7 +34,7 @@ L.die = die     # rs2v_loops looks `die` up as a module global at call time: eve
 #   PBits  its pb-bit two's complement PATTERN in [0, 2^pb)   (accumulators built with `|`, `&`, `!`, `<<`, casts from digits)
 #   PVal   its mathematical VALUE                              (what a function returns: Cast.p_of_bits pb ps pattern)
 # (rs2v_loops' PInt - a primitive PARAMETER that is only tested and shifted right - is also the value.)
-L.INTS = L.INTS + ("PBits", "PVal")
+L.INTS = L.INTS + ("PBits", "PVal", "PUns")
 L.RESERVED |= {"ps", "Ok", "Err"}
 
 
@@ -48,7 +48,8 @@ _coq_ty0, _show0 = L.coq_ty, L.show
 def coq_ty(t):
     t = L.rs(t)
     if is_result(t):
-        return "(Convert.result %s)" % coq_ty(t[1])
+        inner = coq_ty(t[1])
+        return "(Convert.result %s)" % (inner if inner.startswith("(") or " " not in inner else "(" + inner + ")")
     return _coq_ty0(t)
 
 
@@ -114,7 +115,37 @@ TARGETS = [
          head="{ $($name: ident -> $uint: ty), * }", anchor=None, within="impl<const N: usize> ToPrimitive for $BInt<N>",
          fn="$name", prim="$uint", kinds=U, conv="bits", inst="arrows", fnprefix="to_", pre="", selfty="bint",
          calls={"$name": "U_to_int"}),
+    # ---- primitive -> bnum: the primitive PARAMETER is its value (PInt of rs2v_loops: only tested, shifted right, cast to a digit)
+    dict(coq="bint_from_int", group="C13", path="src/bint/convert.rs", macro="from_int",
+         head="($BInt: ident, $Digit: ident; $($int: tt),*)", anchor="impl<const N: usize> From<$int> for $BInt<N>",
+         fn="from", prim="$int", kinds=I, conv="value", inst="list", pre="$BInt,$Digit", selfty="bint", calls={}),
+    dict(coq="bint_from_uint", group="C13", path="src/bint/convert.rs", macro="from_uint",
+         head="($BInt: ident, $BUint: ident; $($from: tt), *)", anchor="impl<const N: usize> From<$from> for $BInt<N>",
+         fn="from", prim="$from", kinds=U, conv="value", inst="list", pre="$BInt,$BUint", selfty="bint", calls={}),
+    dict(coq="try_from_iint", group="C13", path="src/buint/convert.rs", macro="try_from_iint",
+         head="($BUint: ident; $($int: tt -> $uint: tt),*)", anchor="impl<const N: usize> TryFrom<$int> for $BUint<N>",
+         fn="try_from", prim="$int", prim2="$uint", kinds=I, conv="value", inst="pairs", pre="$BUint", selfty="buint", calls={}),
+    dict(coq="U_from_u64", group="C19", path="src/buint/numtraits.rs", macro=None, anchor="impl<const N: usize> FromPrimitive for $BUint<N>",
+         fn="from_u64", prim="u64", pbfix=64, conv="value", selfty="buint", calls={}),
+    dict(coq="U_from_u128", group="C19", path="src/buint/numtraits.rs", macro=None, anchor="impl<const N: usize> FromPrimitive for $BUint<N>",
+         fn="from_u128", prim="u128", pbfix=128, conv="value", selfty="buint", calls={}),
+    dict(coq="I_from_uint", group="C19", path="src/bint/numtraits.rs", macro="from_uint",
+         head="($Digit: ident; $uint: ty, $name: ident)", anchor=None, within="impl<const N: usize> FromPrimitive for $BInt<N>",
+         fn="$name", prim="$uint", kinds=U, conv="value", inst="single", fnprefix="from_", pre="$Digit", selfty="bint", calls={}),
+    dict(coq="I_from_int", group="C19", path="src/bint/numtraits.rs", macro="from_int",
+         head="($BUint: ident, $Digit: ident; $int: ty, $name: ident)", anchor=None, within="impl<const N: usize> FromPrimitive for $BInt<N>",
+         fn="$name", prim="$int", kinds=I, conv="value", inst="single", fnprefix="from_", pre="$BUint,$Digit", selfty="bint", calls={}),
 ]
+
+# Functions of the bnum types that are NOT re-translated here: the call becomes a call of the hand-written model (qualified name);
+# the tie of the callee to its own source is another obligation (Proofs/LoopsTieC13.v: from_uint!, LoopsTieC09.v: as_buint!; from_bits /
+# from_digits are pattern-checked / tied by rs2v_loops).  (type, Rust name) -> (Gallina format, argument types, result type, flags)
+EXT = {
+    ("buint", "from"): ("Convert.U_from_uint dbg pb w (Z.to_nat N) %s", ["PInt"], "buint", ("outcome", "dbg")),
+    ("buint", "cast_from"): ("Cast.U_from_int pb w (Z.to_nat N) %s", ["PInt"], "buint", ("outcome",)),
+    ("buint", "from_digits"): ("(Convert.from_digits %s)", ["digits"], "buint", ()),
+    ("bint", "from_bits"): ("(Cast.from_bits %s)", ["buint"], "bint", ()),
+}
 GROUPS = {}
 for _t in TARGETS:
     GROUPS.setdefault(_t["group"], []).append(_t["coq"])
@@ -126,15 +157,19 @@ class CP(L.LP):
     """L.LP + `loop { .. }`, `Result<T, Self::Error>`, `Err(TryFromIntError(()))`, `<$int>::f(..)`, the primitive type of the
     macro as PBits / PInt."""
 
-    def __init__(self, toks, selfty="buint", prim=None, primty="PBits"):
+    def __init__(self, toks, selfty="buint", prim=None, primty="PBits", prim2=None):
         L.LP.__init__(self, toks, selfty, prim)
         self.primty = primty
+        self.prim2 = prim2             # try_from_iint!: the unsigned type of the same width ($uint)
 
     def type_(self):
         v = self.peek()
         if self.prim is not None and v == self.prim:
             self.eat()
             return self.primty
+        if self.prim2 is not None and v == self.prim2:
+            self.eat()
+            return "PUns"
         if v == "<" and self.prim is not None and self.peek(1) == self.prim and self.peek(2) == ">":
             self.eat(), self.eat(), self.eat()                 # <$int> as a type
             return self.primty
@@ -164,6 +199,11 @@ class CP(L.LP):
             if self.peek() != "{":
                 die("unsupported statement: labelled / valued loop")
             return ["while", ["bool", True], self.block()]
+        if self.peek() == "!":                                 # a block whose value starts with `!` (`{ !Self::ZERO }`)
+            e = self.expr()
+            if self.peek() != "}":
+                die("expression statement starting with `!` in the middle of a block")
+            return ["expr", e]
         return L.LP.stmt(self)
 
     def primary(self):
@@ -248,6 +288,8 @@ class CG(L.Gen):
             p, v, t = self.ex(e[2], env)
             if L.rs(t) == "PBits":
                 return p, "(u_not pb %s)" % v, "PBits"
+            if L.rs(t) == "bint":                       # `!x` on a $BInt (impl Not: from_bits(!bits)): hand model by name
+                return p, "(Core.bitnot w %s)" % v, "bint"
             self.ntmp = save
             return L.Gen.ex(self, e, env)
         if k == "as":
@@ -265,6 +307,10 @@ class CG(L.Gen):
                 if dst == "Digit":                      # $int as digit: truncation, or sign / zero extension of the VALUE
                     return p, "(ud w (Cast.p_of_bits pb ps %s))" % v, "Digit"
                 self.die("unsupported cast %s as %s" % (self.tgt["prim"], show(dst)))
+            if dst == "PUns":
+                if src == "PInt":                       # iN as uN (same width): the value mod 2^pb; the result is a value again
+                    return p, "(ud pb %s)" % v, "PInt"
+                self.die("unsupported cast %s as %s" % (show(src), self.tgt.get("prim2")))
             self.ntmp = save
             return L.Gen.ex(self, e, env)
         return L.Gen.ex(self, e, env)
@@ -319,6 +365,29 @@ class CG(L.Gen):
             return p, "(Some %s)" % v, ("option", t)
         if len(s) == 2 and s[0] == self.tgt["prim"]:
             return self.sibling("<%s>::%s" % s, list(args), env)
+        if s == ("Signed", "is_negative") and len(args) == 1:
+            p, v, t = self.ex(args[0], env)
+            L.unify(t, "bint", "argument of Signed::is_negative")
+            return p, "(Core.is_negative w %s)" % v, "bool"
+        if len(s) == 2 and s[0] in ("Self", "$BUint", "$BInt"):
+            ty = {"Self": self.selfty, "$BUint": "buint", "$BInt": "bint"}[s[0]]
+            if (ty, s[1]) in EXT:
+                fmt, ptys, rty, flags = EXT[(ty, s[1])]
+                if len(args) != len(ptys):
+                    self.die("call of %s with %d arguments, expected %d" % ("::".join(s), len(args), len(ptys)))
+                pre, vs = [], []
+                for a, pt in zip(args, ptys):
+                    p, v, t = self.ex(a, env)
+                    L.unify(t, pt, "argument of " + "::".join(s))
+                    pre += p
+                    vs.append(v)
+                if "dbg" in flags:
+                    self.uses_dbg = True
+                call = fmt % tuple(vs)
+                if "outcome" in flags:
+                    x = self.tmp()
+                    return pre + ["%s <- of_outcome (%s) ;;" % (x, call)], x, rty
+                return pre, call, rty
         return L.Gen.pcall(self, e, env)
 
     def path(self, segs, env, node=None):
@@ -348,6 +417,11 @@ class CG(L.Gen):
 def macro_body(txt, tgt):
     """the body of `macro_rules! <macro>` (its single rule's parameter list is checked), after checking every invocation"""
     name, path = tgt["macro"], tgt["path"]
+    if name is None:                                       # not a macro of its own: a fn of the file's ($BUint, $BInt, $Digit) macro
+        mm = re.search(r"macro_rules!\s*\w+\s*\{\s*\(\s*\$BUint\s*:\s*ident\s*,\s*\$BInt\s*:\s*ident\s*,\s*\$Digit\s*:\s*ident\s*\)", txt)
+        if not mm:
+            die("%s: macro_rules! with ($BUint, $BInt, $Digit) not found" % path)
+        return braces(txt, mm.start(), path)
     toks = rtoks(tgt["head"])                     # the rule may be written with ( ) or { }
     head = r"\s*".join([r"[({]"] + [re.escape(t) for t in toks[1:-1]] + [r"[)}]"])
     mm = re.search(r"macro_rules!\s*%s\s*\{\s*%s\s*=>" % (re.escape(name), head), txt)
@@ -367,17 +441,30 @@ def macro_body(txt, tgt):
         if re.sub(r"\s+", "", pre) != tgt["pre"]:
             die("%s: %s!(%s ..): the arguments before `;` are not `%s`" % (path, name, pre.strip(), tgt["pre"]))
         items = [x.strip() for x in lst.split(",") if x.strip()]
+        if tgt["inst"] == "single":                          # `u8, from_u8`: one type and the method name per invocation
+            if len(items) != 2 or items[1] != tgt["fnprefix"] + items[0]:
+                die("%s: %s!(%s): expected `<type>, %s<type>`" % (path, name, u.strip(), tgt["fnprefix"]))
+            items = items[:1]
         if not items:
             die("%s: %s! instantiated for no type" % (path, name))
         for it in items:
-            if tgt["inst"] == "arrows":
+            if tgt["inst"] == "arrows":                      # `to_u8 -> u8`
                 am = re.fullmatch(r"(\w+)\s*->\s*(\w+)", it)
                 if not am or am.group(1) != tgt["fnprefix"] + am.group(2):
                     die("%s: %s!: cannot read the instantiation `%s`" % (path, name, it))
                 it = am.group(2)
+            if tgt["inst"] == "pairs":                       # `i8 -> u8`: the unsigned type of the same width
+                am = re.fullmatch(r"i(\w+)\s*->\s*u(\w+)", it)
+                if not am or am.group(1) != am.group(2):
+                    die("%s: %s!: `%s` is not a pair iN -> uN of the same width" % (path, name, it))
+                it = "i" + am.group(1)
             if not re.fullmatch(tgt["kinds"], it):
                 die("%s: macro %s is instantiated for types outside the modelled kind: %s" % (path, name, it))
-    b0 = txt.index("{", mm.start())
+    return braces(txt, mm.start(), path)
+
+
+def braces(txt, start, path):
+    b0 = txt.index("{", start)
     d, e = 0, b0
     while True:
         if e >= len(txt):
@@ -396,7 +483,7 @@ def parse_sig(tgt, generics, params, ret):
            "mutref": False, "dbg": False, "prim": tgt["prim"], "coq": tgt["coq"]}
     if generics:
         die("fn %s: generic parameters are not supported" % name)
-    t = CP(L.tokenize(params), tgt["selfty"], tgt["prim"], primty)
+    t = CP(L.tokenize(params), tgt["selfty"], tgt["prim"], primty, tgt.get("prim2"))
     first = True
     while t.peek() is not None:
         if first and (t.peek() == "self" or (t.peek() == "&" and t.peek(1) == "self")):
@@ -417,7 +504,7 @@ def parse_sig(tgt, generics, params, ret):
             die("fn %s: cannot parse the parameter list" % name)
     if ret is None:
         die("fn %s: no return type" % name)
-    r = CP(L.tokenize(ret), tgt["selfty"], tgt["prim"], primty)
+    r = CP(L.tokenize(ret), tgt["selfty"], tgt["prim"], primty, tgt.get("prim2"))
     rt = r.type_()
     if r.peek() is not None:
         die("fn %s: cannot parse the return type %s" % (name, ret))
@@ -434,7 +521,7 @@ def translate_one(tgt, fns, sigs, dsigs):
     coq = tgt["coq"]
     sig, body = sigs[coq], fns[coq]
     primty = "PBits" if tgt["conv"] == "bits" else "PInt"
-    ast = CP(L.tokenize(body), sig["selfty"], sig["prim"], primty).block()
+    ast = CP(L.tokenize(body), sig["selfty"], sig["prim"], primty, tgt.get("prim2")).block()
     tvs, txt, g = {}, None, None
     for final in (False, True):
         g = CG(coq, sigs, dsigs, {}, tvs, final, tgt)
@@ -444,14 +531,17 @@ def translate_one(tgt, fns, sigs, dsigs):
         for pn, pt in sig["params"]:
             g.declare(env, pn, pt, False, ctx)
         txt = g.stmts(ast, env, ctx, 1)
-    if g.recursive or g.uses_dbg:
-        die("fn %s: recursion / debug-dependent model calls are not supported here" % tgt["fn"])
+    if g.recursive:
+        die("fn %s: recursion is not supported here" % tgt["fn"])
     argl = " (pb : Z) (ps : bool)" if tgt["conv"] == "bits" else " (pb : Z)"
+    if tgt.get("pbfix"):                                   # a fn for one concrete primitive type (from_u64): its width is a constant
+        argl = ""
+        txt = "  let pb := %d in\n" % tgt["pbfix"] + txt
     argl += " (self : list Z)" if sig["self"] else ""
     argl += "".join(" (%s : %s)" % (n, coq_ty(t)) for n, t in sig["params"])
     rty = coq_ty(sig["ret"])
-    head = "(* %s: macro %s!, fn %s *)\n" % (tgt["path"], tgt["macro"], tgt["fn"])
-    return head + "Definition %s (w N : Z) (fuel : nat)%s : res %s :=\n%s.\n" % (coq, argl, rty if rty.startswith("(") or " " not in rty else "(" + rty + ")", txt), g.calls
+    head = "(* %s: %sfn %s *)\n" % (tgt["path"], "macro %s!, " % tgt["macro"] if tgt["macro"] else "", tgt["fn"])
+    return head + "Definition %s %s(w N : Z) (fuel : nat)%s : res %s :=\n%s.\n" % (coq, "(dbg : bool) " if g.uses_dbg else "", argl, rty if rty.startswith("(") or " " not in rty else "(" + rty + ")", txt), g.calls
 
 
 HEADER = ["(* GENERATED on every run by tools/rs2v_conv.py from /repo/src/{buint,bint}/{cast,convert,numtraits}.rs (the conversions between",
@@ -520,8 +610,8 @@ def main():
     for tgt in TARGETS:
         coq = tgt["coq"]
         if coq in failed:
-            out.append("(* %s: macro %s!, fn %s  -- NOT TRANSLATED: %s *)\nDefinition %s : unit := tt.\n"
-                       % (tgt["path"], tgt["macro"], tgt["fn"], failed[coq].replace("*)", "* )").replace("(*", "( *"), coq))
+            out.append("(* %s: %s, fn %s  -- NOT TRANSLATED: %s *)\nDefinition %s : unit := tt.\n"
+                       % (tgt["path"], "macro %s!" % tgt["macro"] if tgt["macro"] else "macro numtraits!", tgt["fn"], failed[coq].replace("*)", "* )").replace("(*", "( *"), coq))
         else:
             emit(coq, [])
     out.append("End ConvGen.")
